@@ -119,8 +119,21 @@ fn run_case(cx: &CaseCtx, rep: &mut Report) {
 			let lv: Vec<u8> = ts.levels().into_iter().collect();
 			let (a, b) = (*rng.pick(&lv), *rng.pick(&lv));
 			let (lo, hi) = (a.min(b), a.max(b));
-			text.push_str(&format!(" | filter_zoom min={lo} max={hi}"));
-			model.retain(|k, _| k.0 >= lo && k.0 <= hi);
+			// both limits, or only one of them (the other end stays open: level 0 / level 31)
+			match rng.below(3) {
+				0 => {
+					text.push_str(&format!(" | filter_zoom min={lo}"));
+					model.retain(|k, _| k.0 >= lo);
+				}
+				1 => {
+					text.push_str(&format!(" | filter_zoom max={hi}"));
+					model.retain(|k, _| k.0 <= hi);
+				}
+				_ => {
+					text.push_str(&format!(" | filter_zoom min={lo} max={hi}"));
+					model.retain(|k, _| k.0 >= lo && k.0 <= hi);
+				}
+			}
 		}
 		parts.push(text);
 		models.push(model);
@@ -134,8 +147,20 @@ fn run_case(cx: &CaseCtx, rep: &mut Report) {
 		let all: BTreeSet<u8> = sets.iter().flat_map(|s| s.levels()).collect();
 		let lv: Vec<u8> = all.into_iter().collect();
 		let (a, b) = (*rng.pick(&lv), *rng.pick(&lv));
-		outer = Some((a.min(b), a.max(b)));
-		vpl.push_str(&format!(" | filter_zoom min={} max={}", a.min(b), a.max(b)));
+		match rng.below(3) {
+			0 => {
+				outer = Some((a.min(b), 31));
+				vpl.push_str(&format!(" | filter_zoom min={}", a.min(b)));
+			}
+			1 => {
+				outer = Some((0, a.max(b)));
+				vpl.push_str(&format!(" | filter_zoom max={}", a.max(b)));
+			}
+			_ => {
+				outer = Some((a.min(b), a.max(b)));
+				vpl.push_str(&format!(" | filter_zoom min={} max={}", a.min(b), a.max(b)));
+			}
+		}
 	}
 	cx.progress(&vpl);
 	let witness = |extra: serde_json::Value| json!({"vpl": vpl, "sources": sets.iter().map(|s| json!({"compression": s.comp.name(), "tiles": s.tiles.len(), "levels": s.describe()["levels"]})).collect::<Vec<_>>(), "detail": extra});
